@@ -21,29 +21,16 @@ theorem C14_eint_add (w : Nat) (hw : 0 < w) (x r : EI) (hx : Canon w x) (hr : Ca
 example : Canon 8 ⟨true, [255, 255, 3]⟩ ∧ Canon 8 ⟨false, [1, 0, 4]⟩ := by
   refine ⟨⟨?_, ?_⟩, ⟨?_, ?_⟩⟩ <;> simp [LimbsOk, NoLeadingZero]
 
-/-! ### einteger `-` : exact unless the left operand is negative and the right one is not (D16) -/
+/-! ### einteger `-` : exact for all signs, all sizes -/
 
-/-- the full statement (FALSE on the pinned tree, see the counterexample). -/
-def C14_eint_sub_full : Prop :=
-  ∀ (w : Nat), 0 < w → ∀ (x r : EI), Canon w x → Canon w r →
-    toInt w (sub w x r) = toInt w x - toInt w r
-
-/-- `operator-=` is exact whenever it does not reach the borrow loop with a negative `*this`:
-    non-negative left operand, or negative right operand, or an empty left operand. -/
-theorem C14_eint_sub_partial (w : Nat) (hw : 0 < w) (x r : EI) (hx : Canon w x) (hr : Canon w r)
-    (hregion : x.sign = false ∨ r.sign = true ∨ x.limbs = []) :
+/-- `operator-=`: the integer difference, canonical result — all four sign combinations (a negative left operand with a
+    non-negative right operand is `-(|a| + b)`), any lengths. -/
+theorem C14_eint_sub (w : Nat) (hw : 0 < w) (x r : EI) (hx : Canon w x) (hr : Canon w r) :
     toInt w (sub w x r) = toInt w x - toInt w r ∧ Canon w (sub w x r) :=
-  sub_spec w hw x r hx hr hregion
+  sub_spec w hw x r hx hr
 
-example : (⟨false, [7, 1]⟩ : EI).sign = false ∨ (⟨false, [9]⟩ : EI).sign = true ∨ (⟨false, [7, 1]⟩ : EI).limbs = [] :=
-  Or.inl rfl
-
-/-- D16 witness: `(-1) - 1` on uint16_t limbs returns 0. -/
-theorem C14_eint_sub_counterexample : ¬ C14_eint_sub_full := by
-  intro h
-  have := h 16 (by decide) ⟨true, [1]⟩ ⟨false, [1]⟩ (by simp [Canon, LimbsOk, NoLeadingZero]) (by simp [Canon, LimbsOk, NoLeadingZero])
-  revert this
-  decide
+/-- regression anchor (a test): the former D16 witness `(-1) - 1` on uint16_t limbs. -/
+theorem C14_eint_sub_cfg_d16 : toInt 16 (sub 16 ⟨true, [1]⟩ ⟨false, [1]⟩) = -2 := by decide
 
 /-- the model writes the `uint64_t` steps of `+= -= *=` arithmetically; for the permitted block types (w ≤ 32) the
     wrapping 64-bit computation of the C++ gives exactly the same limb and the same carry / borrow / segment. -/
@@ -73,121 +60,128 @@ theorem C14_eint_mul_cfg_d16a :
 
 /-! ### einteger shifts -/
 
-/-- `operator<<=`: multiplies by 2^k, keeps the sign — any limb width, any state whose limbs fit the block type. -/
+/-- `operator<<=`: multiplies by 2^k, keeps the sign, and leaves no most-significant zero limb (also for a count of
+    whole limbs) — any limb width, any state whose limbs fit the block type. -/
 theorem C14_eint_shift (w : Nat) (hw : 0 < w) (x : EI) (k : Nat) (hx : LimbsOk w x.limbs) :
-    toInt w (shl w x k) = toInt w x * 2 ^ k ∧ LimbsOk w (shl w x k).limbs := by
-  obtain ⟨h1, h2, h3⟩ := shl_spec w hw x k hx
-  refine ⟨?_, h3⟩
+    toInt w (shl w x k) = toInt w x * 2 ^ k ∧ LimbsOk w (shl w x k).limbs ∧ (k ≠ 0 → NoLeadingZero (shl w x k).limbs) := by
+  obtain ⟨h1, h2, h3, h4⟩ := shl_spec w hw x k hx
+  refine ⟨?_, h3, h4⟩
   simp only [toInt, h1, h2]
   split <;> push_cast <;> ring
 
+/-- regression anchor (a test): `5 << 8` on uint8_t limbs is the limb vector [0, 5] (no trailing zero limb). -/
+theorem C14_eint_shl_cfg : (shl 8 ⟨false, [5]⟩ 8).limbs = [0, 5] ∧ (shl 8 ⟨false, []⟩ 24).limbs = [] := by decide
+
 example : toInt 16 (shl 16 ⟨true, [65535, 3]⟩ 37) = toInt 16 ⟨true, [65535, 3]⟩ * 2 ^ 37 := by decide
 
-/-- the full statement for `>>=` (magnitude divided by 2^k, i.e. truncation toward zero): FALSE on the pinned tree. -/
-def C14_eint_shr_full : Prop :=
-  ∀ (w : Nat), 0 < w → ∀ (x : EI) (k : Nat), LimbsOk w x.limbs → toNat w (shr w x k).limbs = toNat w x.limbs / 2 ^ k
+/-- `operator>>=`: the magnitude is divided by 2^k (truncation toward zero) for EVERY shift count — whole limbs, bits,
+    counts up to and beyond nbits() —, the result has no most-significant zero limb. Any limb width, any length. -/
+theorem C14_eint_shift_right (w : Nat) (hw : 0 < w) (x : EI) (k : Nat) (hx : LimbsOk w x.limbs) :
+    toNat w (shr w x k).limbs = toNat w x.limbs / 2 ^ k ∧ LimbsOk w (shr w x k).limbs ∧
+    (k ≠ 0 → NoLeadingZero (shr w x k).limbs) :=
+  ⟨(shr_spec w hw x k hx).1, (shr_spec w hw x k hx).2.1, (shr_spec w hw x k hx).2.2.1⟩
 
-/-- `operator>>=` outside the block-move defect region (count ≥ one limb with 2·(count/w) > number of limbs). -/
-theorem C14_eint_shift_right_partial (w : Nat) (hw : 0 < w) (x : EI) (k : Nat) (hx : LimbsOk w x.limbs)
-    (hregion : ¬ (k ≥ w ∧ k ≤ x.limbs.length * w ∧ x.limbs.length < 2 * (k / w))) :
-    toNat w (shr w x k).limbs = toNat w x.limbs / 2 ^ k ∧ LimbsOk w (shr w x k).limbs :=
-  shr_spec w hw x k hx hregion
-
-example : ¬ (20 ≥ 8 ∧ 20 ≤ ([1, 2, 3, 4, 5] : List Nat).length * 8 ∧ ([1, 2, 3, 4, 5] : List Nat).length < 2 * (20 / 8)) := by decide
-
-/-- witness of the block-move defect: 0x030201 >> 16 on uint8_t limbs gives 0x0203. -/
-theorem C14_eint_shr_counterexample : ¬ C14_eint_shr_full := by
-  intro h
-  have := h 8 (by decide) ⟨false, [1, 2, 3]⟩ 16 (by simp [LimbsOk])
-  revert this; decide
+/-- regression anchors (a test): the former witnesses 0x030201 >> 16 = 3 and 200 >> 8 = 0 on uint8_t limbs. -/
+theorem C14_eint_shr_cfg :
+    (shr 8 ⟨false, [1, 2, 3]⟩ 16).limbs = [3] ∧ (shr 8 ⟨false, [200]⟩ 8).limbs = [] := by decide
 
 /-! ### einteger comparisons -/
 
-/-- full statement: the six operators agree with the integer order. FALSE on the pinned tree (signs are ignored). -/
-def C14_eint_cmp_full : Prop :=
-  ∀ (w : Nat), 0 < w → ∀ (a b : EI), Canon w a → Canon w b →
-    EInt.cmpMask a b = ElasticSpec.cmpMask (toInt w a) (toInt w b)
-
-/-- `== != < <= > >=` on canonical NON-NEGATIVE operands agree with the integer order, any limb width / length. -/
-theorem C14_eint_cmp_partial (w : Nat) (a b : EI) (ha : Canon w a) (hb : Canon w b)
-    (hsa : a.sign = false) (hsb : b.sign = false) :
+/-- `== != < <= > >=` agree with the integer order on canonical operands of ANY sign (a zero whose sign flag is set
+    compares as zero), any limb width / length. -/
+theorem C14_eint_cmp (w : Nat) (a b : EI) (ha : Canon w a) (hb : Canon w b) :
     EInt.cmpMask a b = ElasticSpec.cmpMask (toInt w a) (toInt w b) :=
-  cmpMask_spec w ha hb hsa hsb
+  cmpMask_spec w ha hb
 
-example : Canon 32 ⟨false, [7, 4294967295]⟩ ∧ (⟨false, [7, 4294967295]⟩ : EI).sign = false := by
+example : Canon 32 ⟨true, [7, 4294967295]⟩ ∧ Canon 32 ⟨true, []⟩ := by
   simp [Canon, LimbsOk, NoLeadingZero]
 
-/-- D16 witness: `-2 < -1` is decided on magnitudes. -/
-theorem C14_eint_cmp_counterexample : ¬ C14_eint_cmp_full := by
-  intro h
-  have := h 8 (by decide) ⟨true, [2]⟩ ⟨true, [1]⟩ (by simp [Canon, LimbsOk, NoLeadingZero]) (by simp [Canon, LimbsOk, NoLeadingZero])
-  revert this; decide
+/-- regression anchors (a test): the former D16 witnesses `-2 < -1`, `1 == -1`. -/
+theorem C14_eint_cmp_cfg_d16 :
+    ltE ⟨true, [2]⟩ ⟨true, [1]⟩ = true ∧ eqE ⟨false, [1]⟩ ⟨true, [1]⟩ = false ∧ ltE ⟨true, [1]⟩ ⟨false, [1]⟩ = true := by decide
 
 /-! ### einteger `/` and `%` -/
 
-/-- full statement (truncating division, `a == (a/b)*b + a%b`). FALSE on the pinned tree: signs are dropped and
-    the Knuth-D branch for divisors of two or more limbs is wrong on most operands. -/
+/-- full statement (truncating division, `a == (a/b)*b + a%b`) for divisors of any length: STATED, not proved — the
+    Knuth-D branch of reduce() (divisors of two or more limbs) is covered by the correspondence streams and the spec
+    predicate only; the theorem below covers single-limb divisors. -/
 def C14_eint_divrem_full : Prop :=
   ∀ (w : Nat), 0 < w → ∀ (a b : EI), Canon w a → Canon w b → toInt w b ≠ 0 →
     toInt w (EInt.div w a b) = Int.tdiv (toInt w a) (toInt w b) ∧
     toInt w (EInt.rem w a b) = Int.tmod (toInt w a) (toInt w b)
 
-/-- reduce() with a single-limb divisor and non-negative operands (native branch and long division by one limb):
-    quotient and remainder are the truncating pair, the quotient is canonical. Any limb width, any dividend length. -/
+/-- reduce() with a single-limb divisor (native branch and long division by one limb), operands of ANY sign:
+    quotient and remainder are the truncating pair (quotient sign = xor, remainder follows the dividend), both
+    results are canonical and a zero result carries no sign flag. Any limb width, any dividend length. -/
 theorem C14_eint_divrem_partial (w : Nat) (a b : EI) (d : Nat) (ha : Canon w a) (hb : b.limbs = [d])
-    (hd0 : 0 < d) (hd : d < 2 ^ w) (hsa : a.sign = false) (hsb : b.sign = false) :
+    (hd0 : 0 < d) (hd : d < 2 ^ w) :
     toInt w (EInt.div w a b) = Int.tdiv (toInt w a) (toInt w b) ∧
-    toInt w (EInt.rem w a b) = Int.tmod (toInt w a) (toInt w b) ∧ Canon w (EInt.div w a b) := by
-  obtain ⟨hq, _, hr, hcq, hrs, _, hqsign⟩ := reduce_single_limb w a b d ha hb hd0 hd
-  have hqs : (reduce w a b).q.sign = false := by
-    rcases hqsign with h | h
-    · exact h
-    · rw [h, hsa, hsb]; rfl
-  have hbv : toInt w b = (d : Int) := by simp [toInt, hsb, hb, toNat]
-  have hav : toInt w a = (toNat w a.limbs : Int) := by simp [toInt, hsa]
-  refine ⟨?_, ?_, hcq⟩
+    toInt w (EInt.rem w a b) = Int.tmod (toInt w a) (toInt w b) ∧
+    Canon w (EInt.div w a b) ∧ Canon w (EInt.rem w a b) ∧
+    (toNat w (EInt.div w a b).limbs = 0 → (EInt.div w a b).sign = false) ∧
+    (toNat w (EInt.rem w a b).limbs = 0 → (EInt.rem w a b).sign = false) := by
+  obtain ⟨hq, _, hr, hcq, hcr, hqs, hrs, _⟩ := reduce_single_limb w a b d ha hb hd0 hd
+  have hbv : toInt w b = UVerif.EDec.sgn b.sign d := by simp [toInt, UVerif.EDec.sgn, hb, toNat]
+  have hav : toInt w a = UVerif.EDec.sgn a.sign (toNat w a.limbs) := rfl
+  refine ⟨?_, ?_, hcq, hcr, ?_, ?_⟩
   · show toInt w (reduce w a b).q = _
-    rw [hbv, hav]
-    simp only [toInt, hqs, Bool.false_eq_true, if_false, hq]
-    rfl
+    rw [hbv, hav, UVerif.EDec.tdiv_sgn]
+    simp only [toInt, hqs, hq, UVerif.EDec.sgn]
+    by_cases h0 : toNat w a.limbs / d = 0
+    · simp [h0]
+    · simp [h0]
   · show toInt w (reduce w a b).r = _
-    rw [hbv, hav]
-    simp only [toInt, hrs, Bool.false_eq_true, if_false, hr]
-    rfl
+    rw [hbv, hav, UVerif.EDec.tmod_sgn]
+    simp only [toInt, hrs, hr, UVerif.EDec.sgn]
+    by_cases h0 : toNat w a.limbs % d = 0
+    · simp [h0]
+    · simp [h0]
+  · intro h0
+    show (reduce w a b).q.sign = false
+    rw [hqs, ← hq]
+    have : toNat w (reduce w a b).q.limbs = 0 := h0
+    simp [this]
+  · intro h0
+    show (reduce w a b).r.sign = false
+    rw [hrs, ← hr]
+    have : toNat w (reduce w a b).r.limbs = 0 := h0
+    simp [this]
 
-example : Canon 8 ⟨false, [232, 3, 9]⟩ ∧ (⟨false, [7]⟩ : EI).limbs = [7] ∧ 0 < 7 ∧ 7 < 2 ^ 8 := by
+example : Canon 8 ⟨true, [232, 3, 9]⟩ ∧ (⟨true, [7]⟩ : EI).limbs = [7] ∧ 0 < 7 ∧ 7 < 2 ^ 8 := by
   simp [Canon, LimbsOk, NoLeadingZero]
 
-/-- D16 witness (sign): `-256 / 56` on uint8_t limbs is `+4`. -/
-theorem C14_eint_divrem_counterexample : ¬ C14_eint_divrem_full := by
-  intro h
-  have := (h 8 (by decide) ⟨true, [0, 1]⟩ ⟨false, [56]⟩ (by simp [Canon, LimbsOk, NoLeadingZero])
-    (by simp [Canon, LimbsOk, NoLeadingZero]) (by decide)).1
-  revert this; decide
+/-- regression anchors (a test): the former D16 sign witnesses `-256 / 56 = -4`, `-1 % 6 = -1`, `-300 % 3 = 0` (no sign). -/
+theorem C14_eint_divrem_cfg_d16 :
+    toInt 8 (EInt.div 8 ⟨true, [0, 1]⟩ ⟨false, [56]⟩) = -4 ∧ toInt 8 (EInt.rem 8 ⟨true, [1]⟩ ⟨false, [6]⟩) = -1 ∧
+    EInt.rem 8 ⟨true, [44, 1]⟩ ⟨false, [3]⟩ = ⟨false, []⟩ := by decide
 
-/-- D16 witness (Knuth-D branch, all operands positive): `13108 % 256` on uint8_t limbs is `0`, not `52`. -/
-theorem C14_eint_divrem_knuth_counterexample :
-    ¬ (toInt 8 (EInt.rem 8 ⟨false, [52, 51]⟩ ⟨false, [0, 1]⟩) = Int.tmod (toInt 8 ⟨false, [52, 51]⟩) (toInt 8 ⟨false, [0, 1]⟩)) := by
+/-- regression anchors (a test): former Knuth-D witnesses — `13108 % 256 = 52` on uint8_t limbs, and the classical
+    add-back case `0x7fff800000000000 / 0x800000000001` on uint16_t limbs. -/
+theorem C14_eint_divrem_cfg_knuth :
+    toInt 8 (EInt.rem 8 ⟨false, [52, 51]⟩ ⟨false, [0, 1]⟩) = 52 ∧
+    toInt 16 (EInt.div 16 ⟨false, [0, 0, 32768, 32767]⟩ ⟨false, [1, 0, 32768]⟩) = 65534 ∧
+    toInt 16 (EInt.rem 16 ⟨false, [0, 0, 32768, 32767]⟩ ⟨false, [1, 0, 32768]⟩) = Int.tmod 9223231299366420480 140737488355329 := by
   decide
 
 /-! ### histories -/
 
-/-- HISTORY (einteger): along ANY chain of `+= -= *= negate <<=` whose steps avoid the two regions named in
-    `Op.Ok` (`-=` with negative `*this` and non-negative rhs — D16; `<<=` by a whole number of limbs), the object
-    denotes the exact integer value of the chain and stays canonical, whatever growth or shrinkage the limb vector
-    went through. Any limb width, any chain length. -/
+/-- HISTORY (einteger): along ANY chain of `+= -= *= negate <<=` with canonical operands (`Op.Ok` asks nothing else),
+    the object denotes the exact integer value of the chain and stays canonical, whatever growth or shrinkage the
+    limb vector went through. Any limb width, any chain length, any signs. -/
 theorem C14_history (w : Nat) (hw : 0 < w) (ops : List EInt.Op) (x : EI) (hx : Canon w x) (hok : EInt.OkAll w x ops) :
     toInt w (EInt.runAll w x ops) = EInt.exactAll w (toInt w x) ops ∧ Canon w (EInt.runAll w x ops) :=
   EInt.history_spec w hw ops x hx hok
 
 example : EInt.OkAll 8 ⟨false, [255, 255]⟩
-    [.add ⟨true, [255, 255]⟩, .sub ⟨true, [7]⟩, .mulF ⟨true, [255, 255, 1]⟩, .neg, .shl 13, .add ⟨true, [1]⟩] := by
+    [.add ⟨true, [255, 255]⟩, .sub ⟨false, [7]⟩, .mulF ⟨true, [255, 255, 1]⟩, .neg, .shl 16, .sub ⟨false, [1]⟩] := by
   simp [EInt.OkAll, EInt.Op.Ok, EInt.Op.run, Canon, LimbsOk, NoLeadingZero]
 
-/-- HISTORY (edecimal): any chain of `+= -= *= negate` with canonical operands — no restriction on signs/sizes. -/
-theorem C14_edec_history (ops : List EDec.Op) (x : EDec.ED) (hx : EDec.ECanon x) (hok : ∀ o ∈ ops, o.Ok) :
-    EDec.toInt (EDec.runAll x ops) = EDec.exactAll (EDec.toInt x) ops ∧ EDec.ECanon (EDec.runAll x ops) :=
-  EDec.history_spec ops x hx hok
+/-- HISTORY (edecimal): any chain of `+= -= *= /= %= negate` with canonical operands (non-zero divisors): exact integer
+    value, canonical digits, and never a "negative zero" — no restriction on signs/sizes. -/
+theorem C14_edec_history (ops : List EDec.Op) (x : EDec.ED) (hx : EDec.ECanon x) (hn : EDec.NZ x) (hok : ∀ o ∈ ops, o.Ok) :
+    EDec.toInt (EDec.runAll x ops) = EDec.exactAll (EDec.toInt x) ops ∧ EDec.ECanon (EDec.runAll x ops) ∧
+    EDec.NZ (EDec.runAll x ops) :=
+  EDec.history_spec ops x hx hn hok
 
 /-! ### einteger decimal text (also the einteger clause of C16) -/
 
@@ -277,40 +271,48 @@ theorem C14_edec_cmp (a b : ED) (ha : ECanon a) (hb : ECanon b) (hna : NZ a) (hn
     EDec.cmpMask a b = ElasticSpec.cmpMask (EDec.toInt a) (EDec.toInt b) := EDec.cmpMask_spec ha hb hna hnb
 
 open UVerif.EDec in
-/-- edecimal digit shifts: `<<` multiplies the magnitude by 10^k, `>>` divides it by 10^k (toward zero); the sign
-    flag is kept by `<<`. (The printed text of `0 << k` is `00…0` — recorded finding `edec.shl.zero`.) -/
+/-- edecimal digit shifts: `<<` multiplies the magnitude by 10^k (zero stays the single digit `0`, a canonical object stays
+    canonical), `>>` divides it by 10^k (toward zero); the sign flag is kept by `<<`. -/
 theorem C14_edec_shift (x : ED) (k : Nat) (hx : DOk x.d) :
     EDec.toNat (EDec.shl x k).d = EDec.toNat x.d * 10 ^ k ∧ (EDec.shl x k).neg = x.neg ∧
+    (ECanon x → ECanon (EDec.shl x k)) ∧
     EDec.toNat (EDec.shr x k).d = EDec.toNat x.d / 10 ^ k :=
-  ⟨(EDec.shl_spec x k).1, (EDec.shl_spec x k).2, EDec.shr_spec x k hx⟩
+  ⟨(EDec.shl_spec x k).1, (EDec.shl_spec x k).2.1, (EDec.shl_spec x k).2.2, EDec.shr_spec x k hx⟩
 
-/-- negation flips the sign flag: the value is negated (einteger and edecimal). -/
+/-- regression anchor (a test): `0 << 3` prints `0`. -/
+theorem C14_edec_shl_cfg : EDec.toDecimal (EDec.shl ⟨false, [0]⟩ 3) = "0" := by decide
+
+/-- negation: the value is negated (einteger flips the flag; edecimal flips it unless the value is zero, so `-0` does not
+    arise). -/
 theorem C14_neg (w : Nat) (x : EI) (y : EDec.ED) :
-    toInt w (EInt.neg x) = -toInt w x ∧ EDec.toInt (EDec.neg y) = -EDec.toInt y := by
-  constructor
-  · simp only [EInt.neg, toInt]; by_cases h : x.sign = true <;> simp [h]
-  · simp only [EDec.neg, EDec.toInt]; by_cases h : y.neg = true <;> simp [h]
+    toInt w (EInt.neg x) = -toInt w x ∧ EDec.toInt (EDec.neg y) = -EDec.toInt y ∧
+    (EDec.ECanon y → EDec.ECanon (EDec.neg y)) ∧ (EDec.NZ y → EDec.NZ (EDec.neg y)) := by
+  refine ⟨?_, EDec.neg_spec y, EDec.ecanon_neg, EDec.neg_nz⟩
+  simp only [EInt.neg, toInt]; by_cases h : x.sign = true <;> simp [h]
+
+/-- regression anchor (a test): `-0` prints `0`. -/
+theorem C14_edec_neg_cfg : EDec.toDecimal (EDec.neg ⟨false, [0]⟩) = "0" := by decide
 
 /-! ### edecimal `/` and `%` -/
 
 open UVerif.EDec in
 /-- `decint_divide` (long division by subtract-and-count, `findLargestMultiple`): quotient and remainder are the
-    truncating pair AS INTEGERS, with canonical digit vectors — any sizes, any signs of dividend and divisor.
-    (`NZ x`: the dividend is not the object "negative flag + zero digits".) -/
+    truncating pair, with canonical digit vectors and NO negative zero (`NZ`: a zero result never carries the sign
+    flag, so it prints `0`) — any sizes, any signs of dividend and divisor. -/
 theorem C14_edec_divrem (x y : ED) (hx : ECanon x) (hy : ECanon y) (hnx : NZ x) (hy0 : EDec.toInt y ≠ 0) :
     EDec.toInt (EDec.div x y) = Int.tdiv (EDec.toInt x) (EDec.toInt y) ∧
     EDec.toInt (EDec.rem x y) = Int.tmod (EDec.toInt x) (EDec.toInt y) ∧
-    ECanon (EDec.div x y) ∧ ECanon (EDec.rem x y) := by
+    ECanon (EDec.div x y) ∧ ECanon (EDec.rem x y) ∧ NZ (EDec.div x y) ∧ NZ (EDec.rem x y) := by
   have h0 : EDec.toNat y.d ≠ 0 := by
     intro h; apply hy0; simp [EDec.toInt, h]
-  obtain ⟨h1, h2, h3, h4, _, _⟩ := divide_spec hx hy hnx h0
-  exact ⟨h1, h2, h3, h4⟩
+  obtain ⟨h1, h2, h3, h4, _, _, h7, h8⟩ := divide_spec hx hy hnx h0
+  exact ⟨h1, h2, h3, h4, h7, h8⟩
 
 open UVerif.EDec in
 /-- the identity the property names: `a == (a/b)*b + a%b`. -/
 theorem C14_edec_divrem_identity (x y : ED) (hx : ECanon x) (hy : ECanon y) (hnx : NZ x) (hy0 : EDec.toInt y ≠ 0) :
     EDec.toInt x = EDec.toInt (EDec.div x y) * EDec.toInt y + EDec.toInt (EDec.rem x y) := by
-  obtain ⟨h1, h2, _, _⟩ := C14_edec_divrem x y hx hy hnx hy0
+  obtain ⟨h1, h2, _⟩ := C14_edec_divrem x y hx hy hnx hy0
   rw [h1, h2, Int.mul_comm]
   exact (Int.mul_tdiv_add_tmod _ _).symm
 
@@ -319,18 +321,8 @@ example : ECanon ⟨true, [7, 6, 5, 4, 3, 2, 1]⟩ ∧ NZ ⟨true, [7, 6, 5, 4, 
   refine ⟨⟨?_, ?_, ?_⟩, ?_, ?_⟩ <;> simp [DOk, NZ, EDec.toNat, EDec.toInt]
 
 open UVerif.EDec in
-/-- the PRINTED remainder (C16 clause for edecimal): full statement, false on the pinned tree (D17). -/
-def C14_edec_rem_text_full : Prop :=
-  ∀ (x y : ED), ECanon x → ECanon y → NZ x → EDec.toInt y ≠ 0 →
-    EDec.toDecimal (EDec.rem x y) = ElasticSpec.decText (Int.tmod (EDec.toInt x) (EDec.toInt y))
-
-open UVerif.EDec in
-/-- D17 witness: `-9 % 3` prints `-0`. -/
-theorem C14_edec_divrem_counterexample : ¬ C14_edec_rem_text_full := by
-  intro h
-  have := h ⟨true, [9]⟩ ⟨false, [3]⟩ (by refine ⟨?_, ?_, ?_⟩ <;> simp [DOk]) (by refine ⟨?_, ?_, ?_⟩ <;> simp [DOk])
-    (by simp [NZ, EDec.toNat]) (by decide)
-  revert this; decide
+/-- regression anchor (a test): the former D17 witness `-9 % 3` now prints `0`. -/
+theorem C14_edec_rem_cfg_d17 : EDec.toDecimal (EDec.rem ⟨true, [9]⟩ ⟨false, [3]⟩) = "0" := by decide
 
 open UVerif.EDec in
 /-- finite regression anchors (a test, not the property): a 7-digit by 3-digit division with every sign combination. -/
